@@ -331,23 +331,35 @@ def Server.runSCIONServer : List Row := [
   (3, "if err != nil"),  -- env: tests the serialiser's error; consequence see row 115
   (4, "panic(err)"),  -- UNMODELLED: panic(err) when UDP.SerializeTo fails (checksum over the SCION pseudo header)
   (3, "buffer.PushLayer(udpLayer.LayerType())"),  -- env: gopacket layer bookkeeping
-  (3, "if len(oob) != 0"),  -- UNMODELLED: forwarding: a kernel rx timestamp, if read, is appended to the packet as an E2E option; Fwd.pkt := p has none
-  (4, "tsOpt.OptType = scion.OptTypeTimestamp"),  -- UNMODELLED: option type 253 (scion.OptTypeTimestamp) of the appended option
-  (4, "tsOpt.OptData = oob"),  -- UNMODELLED: option data = raw kernel control-message bytes (oob) of this datagram: a linux cmsg is put on the wire
-  (4, "tsOpt.OptAlign[0] = 0"),  -- UNMODELLED: alignment of the appended option reset
-  (4, "tsOpt.OptAlign[1] = 0"),  -- UNMODELLED: alignment of the appended option reset
-  (4, "tsOpt.OptDataLen = 0"),  -- UNMODELLED: stale OptDataLen of the reused option struct reset
-  (4, "tsOpt.ActualLength = 0"),  -- UNMODELLED: stale ActualLength of the reused option struct reset
-  (4, "if scionLayer.NextHdr != slayers.End2EndClass"),  -- UNMODELLED: decision: no E2E extension directly after the SCION header (also true when a hop-by-hop extension comes first)
-  (5, "e2eLayer = slayers.EndToEndExtn{}"),  -- UNMODELLED: fresh empty E2E extension replaces whatever e2eLayer held
-  (5, "e2eLayer.NextHdr = slayers.L4UDP"),  -- UNMODELLED: fresh extension's NextHdr := UDP
-  (5, "scionLayer.NextHdr = slayers.End2EndClass"),  -- UNMODELLED: SCION NextHdr := End2EndClass (a received HopByHopClass is overwritten: HBH header dropped from the forward)
-  (4, "e2eLayer.Options = append(e2eLayer.Options, tsOpt)"),  -- UNMODELLED: timestamp option appended after the options the packet already carried
-  (3, "if scionLayer.NextHdr == slayers.End2EndClass"),  -- UNMODELLED: E2E ext re-serialised only if directly after SCION hdr; oob empty + NextHdr = HBH: no ext written, NextHdr kept
-  (4, "err = e2eLayer.SerializeTo(buffer, options)"),  -- env: slayers serialisation of the E2E extension
-  (4, "if err != nil"),  -- env: tests the serialiser's error; consequence see row 132
+  (3, "hasHBH := scionLayer.NextHdr == slayers.HopByHopClass"),  -- ScionSrv.fwdWire: p.hbh.isSome (ScionSrv.recvNext p = .hbh): the received packet's first extension is hop-by-hop
+  (3, "hasE2E := decoded[len(decoded)-2] == slayers.LayerTypeEndToEndExtn"),  -- ScionSrv.fwdWire: recvd := if p.e2e then some (recvOpts p) else none (an end-to-end extension directly precedes the UDP header)
+  (3, "if len(oob) != 0"),  -- ScionSrv.fwdWire: if p.stamp (a kernel rx timestamp came with the datagram; harness c13 srv.fwd zone=sw|none)
+  (4, "tsOpt.OptType = scion.OptTypeTimestamp"),  -- ScionSrv.EOpt.ownTs: option type 253 (pin C13_pin_OptTypeTimestamp; driver / harness print 253:ts)
+  (4, "tsOpt.OptData = oob"),  -- ScionSrv.EOpt.ownTs: option data = raw kernel control-message bytes (oob) of this datagram (opaque in the model)
+  (4, "tsOpt.OptAlign[0] = 0"),  -- env: alignment of the appended option reset (no padding in front of it)
+  (4, "tsOpt.OptAlign[1] = 0"),  -- env: alignment of the appended option reset
+  (4, "tsOpt.OptDataLen = 0"),  -- env: stale OptDataLen of the reused option struct reset (FixLengths recomputes it)
+  (4, "tsOpt.ActualLength = 0"),  -- env: stale ActualLength of the reused option struct reset
+  (4, "if !hasE2E"),  -- ScionSrv.fwdWire: recvd.getD [] (no end-to-end extension received: a new, empty one)
+  (5, "e2eLayer = slayers.EndToEndExtn{}"),  -- ScionSrv.fwdWire: recvd.getD [] = [] (whatever e2eLayer held from an earlier packet is discarded)
+  (5, "e2eLayer.NextHdr = slayers.L4UDP"),  -- ScionSrv.Wire.e2e: its NextHdr is always UDP
+  (5, "hasE2E = true"),  -- ScionSrv.fwdWire: e2e := some (..) when p.stamp
+  (4, "e2eLayer.Options = append(e2eLayer.Options, tsOpt)"),  -- ScionSrv.fwdWire: recvd.getD [] ++ [.ownTs] (C13_forward_e2e_options: received options first, in order)
+  (3, "if hasE2E"),  -- ScionSrv.fwdWire: e2e.isSome
+  (4, "err = e2eLayer.SerializeTo(buffer, options)"),  -- env: slayers serialisation of the E2E extension (options as decoded, padding options included; harness c13 srv.fwd re-parses it)
+  (4, "if err != nil"),  -- env: tests the serialiser's error; consequence see next row
   (5, "panic(err)"),  -- UNMODELLED: panic(err) when EndToEndExtn.SerializeTo fails (NextHdr check, length not a multiple of 4)
   (4, "buffer.PushLayer(e2eLayer.LayerType())"),  -- env: gopacket layer bookkeeping
+  (4, "if !hasHBH"),  -- ScionSrv.fwdWire: next := if p.hbh.isSome then .hbh else after
+  (5, "scionLayer.NextHdr = slayers.End2EndClass"),  -- ScionSrv.fwdWire: next := after = .e2e
+  (3, "if hasHBH"),  -- ScionSrv.fwdWire: hbh := p.hbh.map fun b => (after, b)
+  (4, "b, err := buffer.PrependBytes(len(hbhLayer.Contents))"),  -- env: room for the hop-by-hop extension in front of what has been serialised
+  (4, "if err != nil"),  -- env: PrependBytes of the gopacket buffer always returns nil
+  (5, "panic(err)"),  -- env: unreachable, see previous row
+  (4, "copy(b, hbhLayer.Contents)"),  -- ScionSrv.fwdWire: hbh bytes as received (C13_forward_hbh_preserved)
+  (4, "if hasE2E"),  -- ScionSrv.fwdWire: after := if e2e.isSome then .e2e else .udp
+  (5, "b[0] = uint8(slayers.End2EndClass)"),  -- ScionSrv.fwdWire: the extension's NextHdr field := after (C13_forward_parses)
+  (4, "buffer.PushLayer(hbhLayer.LayerType())"),  -- env: gopacket layer bookkeeping
   (3, "err = scionLayer.SerializeTo(buffer, options)"),  -- env: slayers serialisation of the SCION header as received (Fwd.pkt; fields compared by harness c13 fmtForward)
   (3, "if err != nil"),  -- env: tests the serialiser's error; consequence see row 136
   (4, "panic(err)"),  -- UNMODELLED: panic(err) when SCION.SerializeTo fails
